@@ -134,7 +134,7 @@ fn required_c19(plan: &Plan) -> Vec<String> {
     if plan.tier == Tier::Miri {
         return vec![];
     }
-    let mut v: Vec<String> = ["prefix:empty", "prefix:partial", "prefix:full", "cost:u64-switch", "stack-share:observed", "cost:no-heap-at-all"]
+    let mut v: Vec<String> = ["prefix:empty", "prefix:partial", "prefix:full", "cost:u64-switch", "stack-share:observed", "stack-share:n<40", "stack-share:n<600", "stack-share:n>=3000", "stack-share:merged-start", "cost:no-heap-at-all"]
         .iter()
         .map(|s| s.to_string())
         .collect();
@@ -772,7 +772,9 @@ where
         }
         if ok && cost && C::KIND != "vec" {
             let (used, cap) = c.heap_v();
-            if used != cref.bytes || (!cref.ever_spilled && !presized && cap != 0) {
+            // (a stride-compressing container owns no heap before something spills, however it
+            // was constructed: its with_capacity / merge_regions have nothing to size)
+            if used != cref.bytes || (!cref.ever_spilled && (!presized || with_stride) && cap != 0) {
                 ctx.fail(
                     "cost",
                     format!(
@@ -921,18 +923,53 @@ pub fn run_stack_share<E: Entry, S: IdxC<Idx<E>>>(ctx: &mut Ctx) {
         ctx.end_history();
         return;
     }
-    let n = match ctx.hist_no % 3 {
+    // (the index container is selected by hist_no % 3, so the size class must not be)
+    let n = match (ctx.hist_no / 3) % 3 {
         0 => ctx.rng.range(1, 40),
         1 => ctx.rng.range(40, 600),
         _ => ctx.tier.pick(3000, 100_000, 10) as usize,
     };
+    ctx.cover(["stack-share:n<40", "stack-share:n<600", "stack-share:n>=3000"][((ctx.hist_no / 3) % 3) as usize]);
     let kind = if n > 600 { Kind::Tiny } else { Kind::Hostile };
     let pool: Vec<E::V> = <E::V as Val>::gen_run(&mut ctx.rng, Dom::new(kind), n.min(300));
-    let mut r = E::R::default();
     let mut aux = E::R::default();
-    let mut fs = Stack::<E, S>::default();
-    ctx.log(format!("r = {}::default(); fs = FlatStack<_, {}>::default()", E::label(), S::KIND));
     let nforms = E::form_names().len();
+    // every other group of histories starts from merge_regions / merge_capacity over two
+    // populated sources (the stack's sources hold what the region's sources hold): sizing a
+    // stack from other stacks must not make its indices cost anything either
+    let merged_start = !E::coded() && (ctx.hist_no / 9) % 2 == 1;
+    let (mut r, mut fs) = if merged_start {
+        let built = panics::catch(|| {
+            let (mut r1, mut r2) = (E::R::default(), E::R::default());
+            let (mut s1, mut s2) = (Stack::<E, S>::default(), Stack::<E, S>::default());
+            let mut aux = E::R::default();
+            for (k, v) in pool.iter().take(24).enumerate() {
+                if k % 3 == 0 {
+                    let _ = E::push(&mut r1, v, 0, &mut aux);
+                    E::fs_copy(&mut s1, v, 0, &mut aux);
+                } else {
+                    let _ = E::push(&mut r2, v, 0, &mut aux);
+                    E::fs_copy(&mut s2, v, 0, &mut aux);
+                }
+            }
+            (E::R::merge_regions([&r1, &r2].into_iter()), Stack::<E, S>::merge_capacity([&s1, &s2].into_iter()))
+        });
+        match built {
+            Ok(x) => {
+                ctx.log(format!("r = {}::merge_regions([r1, r2]); fs = FlatStack<_, {}>::merge_capacity([s1, s2]) (s_i holds what r_i holds)", E::label(), S::KIND));
+                ctx.cover("stack-share:merged-start");
+                x
+            }
+            Err(p) => {
+                ctx.fail_panic("stack-share", &p);
+                ctx.end_history();
+                return;
+            }
+        }
+    } else {
+        ctx.log(format!("r = {}::default(); fs = FlatStack<_, {}>::default()", E::label(), S::KIND));
+        (E::R::default(), Stack::<E, S>::default())
+    };
     let res = panics::catch(|| {
         for k in 0..n {
             let v = &pool[k % pool.len()];
